@@ -142,8 +142,10 @@ static int end_hook(void) {
 int harness_main(void) {
   sc = fmc_param("sc", 1);
   rt_start();
+  rt_pin_begin();
   fmc_begin();
   for (int k = 0; k < fmc_param("noise", 0); k++) fiber_detach(fiber_create(STK, jnoise, 0));
+  if (sc != 9) rt_pin_end();
   switch (sc) {
     case 1:
       F = fiber_create(STK, f_body, 0); fmc_focus(F, sizeof *F);
@@ -200,8 +202,9 @@ int harness_main(void) {
       break;
     }
     case 9:
-      F = fiber_create(STK, f_body_companion, 0); fmc_focus(F, sizeof *F);
-      other[0] = fiber_create(STK, joiner, (void*)1);
+      F = rt_create(0, STK, f_body_companion, 0); fmc_focus(F, sizeof *F);
+      other[0] = rt_create(1, STK, joiner, (void*)1);
+      rt_pin_end();
       fmc_yield();
       if (jres(other[0]) != (void*)1) fmc_fail("join: joiner failed on a joinable fiber");
       break;
